@@ -74,12 +74,12 @@ let handle = function
          "OK " ^ String.concat ";" (List.map (fun (_, o) -> match layout_of l o with
                                        | Some ((p, ns), sz) -> Printf.sprintf "%d.%d.%s" (int_of_nat p) (int_of_nat ns) (hex_of_z sz)
                                        | None -> "?") ol)
-      | "wf" -> if heap_ok l h then "OK 1" else "OK 0"
+      | "wf" -> if heap_ok l h && ptr_ok h r then "OK 1" else "OK 0"
       | "all" ->
          let lay = String.concat ";" (List.map (fun (_, o) -> match layout_of l o with
                                        | Some ((p, ns), sz) -> Printf.sprintf "%d.%d.%s" (int_of_nat p) (int_of_nat ns) (hex_of_z sz)
                                        | None -> "?") ol) in
-         let wf = if heap_ok l h then "1" else "0" in
+         let wf = if heap_ok l h && ptr_ok h r then "1" else "0" in
          (match mark l h r with
           | Err e -> "L " ^ lay ^ " | W " ^ wf ^ " | M ERR " ^ string_of_err e ^ " | G ERR"
           | Ok h1 ->
